@@ -489,6 +489,7 @@ pub struct Driver {
     pub grants: HashMap<&'static str, usize>,
     pub seen: HashMap<&'static str, usize>,
     pub diverged: bool,
+    pub return_timed_out: bool,
     pub sig_thread: Option<std::thread::JoinHandle<Box<dyn FnMut() + Send>>>,
 }
 
@@ -728,6 +729,18 @@ impl Driver {
             e.ev == name && (c < 0 || e.c == c || (e.ev == "Accept_Return" && ports.get(&(e.v as u16)) == Some(&c)))
         });
         if r.is_none() {
+            let gates_open = {
+                let g = self.ctx.gates.lock().unwrap();
+                g.mode.values().all(|m| *m == Mode::Free)
+            };
+            // (only when no hook gate of the harness is closed: a thread parked by the harness is not the code's doing;
+            // the epilogue opens every gate and waits again)
+            if name == "Run_Return" && self.sig_sent && !self.return_timed_out && gates_open {
+                // the signal was sent and run has not returned within 1 s + 4 s + 15 s: a fact for the log, recorded
+                // BEFORE the epilogue lets the handlers finish (after which a blocked run may well return)
+                self.return_timed_out = true;
+                self.ctx.record("Return_Timeout", "drv", -1, 0, "");
+            }
             if name == "H_Read" || name == "H_Finish" {
                 // an awaited service did not happen: a fact for the log (the judge decides what it means)
                 self.ctx.record("Await_Failed", &th_cli(c), c, 0, name);
@@ -878,11 +891,12 @@ impl Driver {
         }
         // 2. no gate stays closed; run must return (escalating waits; only "did not return" matters)
         self.ctx.free_all();
-        let returned = if self.hang {
-            // a step already failed to happen within 1 s + 4 s + 15 s: give run one more second only
+        let returned = if self.return_timed_out {
+            // run already failed to return within 1 s + 4 s + 15 s after the signal: give it one more second only
             std::thread::sleep(Duration::from_millis(WAITS_MS[0]));
             self.ctx.has_event("Run_Return")
         } else {
+            // (also when another step hung before: the full escalation counts from the signal)
             self.await_ev("Run_Return", -1, 0)
         };
         let sig_to_return_ms = t_sig.elapsed().as_millis() as u64;
@@ -1316,7 +1330,7 @@ where
         let port = fixed_port.unwrap_or_else(|| pick_port(rng));
         let server = start(&cfg, ctx.clone(), port);
         let target: SocketAddr = if cfg.bind.contains(':') { format!("[::1]:{}", port) } else { format!("127.0.0.1:{}", port) }.parse().unwrap();
-        let d = Driver { ctx: ctx.clone(), cfg: cfg.clone(), port, target, clis: HashMap::new(), server, sig_sent: false, problems: vec![], hang: false, grants: HashMap::new(), seen: HashMap::new(), diverged: false, sig_thread: None };
+        let d = Driver { ctx: ctx.clone(), cfg: cfg.clone(), port, target, clis: HashMap::new(), server, sig_sent: false, problems: vec![], hang: false, grants: HashMap::new(), seen: HashMap::new(), diverged: false, return_timed_out: false, sig_thread: None };
         let up = wait_cond(&ctx, || listening(port) || ctx.has_event("Run_Return"));
         if up && !ctx.has_event("Run_Return") {
             break (ctx, d);
